@@ -4,6 +4,7 @@ Symbolically executes loop kernels (numba style) into stores `array[idx] <- valu
 exact rational-function algebra of xrsa.sym.  Every unsupported construct raises AnalysisIncomplete - never a guess.
 """
 import ast
+import os
 from fractions import Fraction
 
 from .program import AnalysisIncomplete, Ext, Func, Partial, norm
@@ -149,6 +150,10 @@ def neg_cond(c):
             return ('cmp', '!=', c[2], d)
         if op == '!=':
             return ('cmp', '==', c[2], d)
+        if op in ('<', '<=') and os.environ.get('XRSA_REAL_NEGATION') != '1':
+            # IEEE: `not (a < b)` is not `b <= a` when one side is NaN - the negation of an ordered comparison stays a negation
+            # (the `else` of `if a > b` is taken for NaN); evaluators decide `not` on the value of the comparison
+            return ('not', c)
         if op == '<':      # not (d < 0)  ==  -d <= 0
             return cmp_cond('<=', -d, Rat.const(0))
         if op == '<=':
